@@ -2,7 +2,7 @@
 # usage: validate_refactor.sh <SRC dir> <prop>     (validates m1..m4 of one property, serially, in the agent's own clean worktree
 # /tmp/wt5/<prop>, because the demos assert that path)  prints one line per refactoring
 src=$1; p=$2
-wt=/tmp/wt5/$p
+wt=${WTROOT:-/tmp/wt5}/$p
 [ -d $wt ] || git -C /repo worktree add --detach $wt HEAD -q
 cd $wt && git checkout -q -- . && git checkout -q --detach $(git -C /repo rev-parse HEAD) 2>/dev/null
 export PYTHONPATH=$wt/src
